@@ -77,10 +77,11 @@ check(
 check(
     "C15",
     "exhaustive enumeration of arrival patterns on a P/2 grid x all orders of equal-deadline "
-    "timers on the real throttle in exact virtual time",
+    "timers on the real throttle in exact virtual time, plus explicit-state breadth-first search over canonical states run to a FIXPOINT for at most K outstanding calls",
     "Every arrival pattern up to n calls on the grid with every tie order; window, order, "
     "no-needless-delay and outcome clauses evaluated from exact virtual start times. Long patterns of 8-16 calls "
-    "(gap cycle + <= 2 free gaps, limits 1..4) are explored with a stated bound of 2 (3) tie-order deviations.",
+    "(gap cycle + <= 2 free gaps, limits 1..4) are explored with a stated bound of 2 (3) tie-order deviations. The fixpoint searches "
+    "(evidence.coverage.fixpoint_searches) cover arrival histories of EVERY length on the grid with at most K = 2-4 (6) calls outstanding.",
     "grid arrivals only (multiples of P/2); same-instant arrivals are symmetric; the long patterns are deviation-bounded (evidence.coverage.declared_deviation_bound).",
     "3/C15",
 )
